@@ -30,6 +30,7 @@ type ctrKey struct {
 }
 
 type ctrEnt struct {
+	key   ctrKey
 	n     uint64
 	owner uint64 // goroutine id of the first drawer
 }
@@ -51,7 +52,7 @@ type Entropy struct {
 	Debug  func(scope string, stack uint64, ctr uint64, n int)
 
 	mu   sync.Mutex
-	ctrs map[ctrKey]*ctrEnt
+	ctrs []*ctrEnt // no Go map: runtime map code is race-instrumented even for //go:norace callers
 	namb atomic.Uint64
 
 	draws  atomic.Uint64 // total draws
@@ -117,14 +118,17 @@ func (e *Entropy) Read(p []byte) (int, error) {
 	me := goid()
 	raceOff()
 	e.mu.Lock()
-	if e.ctrs == nil {
-		e.ctrs = map[ctrKey]*ctrEnt{}
-	}
 	k := ctrKey{sid, sh}
-	c := e.ctrs[k]
+	var c *ctrEnt
+	for i := len(e.ctrs) - 1; i >= 0; i-- {
+		if e.ctrs[i].key == k {
+			c = e.ctrs[i]
+			break
+		}
+	}
 	if c == nil {
-		c = &ctrEnt{owner: me}
-		e.ctrs[k] = c
+		c = &ctrEnt{key: k, owner: me}
+		e.ctrs = append(e.ctrs, c)
 	} else if c.owner != me {
 		e.namb.Add(1)
 		if sc != nil {
